@@ -12,7 +12,7 @@ cp $SRC/tests/seed_demo_$N.rs $W/tests/ 2>/dev/null || cp $SRC/SEED_DEMO_$N.rs $
 cd $W
 export CARGO_NET_OFFLINE=true
 echo "== demo on clean tree"
-timeout 600 cargo test --offline --test seed_demo_$N 2>&1 | grep -E "^test result|panicked|error\[|error:" | head -5
+timeout 1800 cargo test --offline --test seed_demo_$N 2>&1 | grep -E "^test result|panicked|error\[|error:" | head -5
 clean_rc=${PIPESTATUS[0]}
 echo "clean rc=$clean_rc"
 git apply $SRC/SEED_$N.diff || { echo "PATCH DOES NOT APPLY"; cd /; git -C /repo worktree remove --force $W; exit 3; }
@@ -22,7 +22,7 @@ RUSTFLAGS="--cfg a10_verif" cargo build --offline 2>&1 | grep -E "^error" | head
 echo "== pinned suite with the patch"
 /verif/tools/run_baseline.sh $W | tail -3
 echo "== demo with the patch"
-timeout 600 cargo test --offline --test seed_demo_$N 2>&1 | grep -E "^test result|panicked|error\[|error:|signal" | head -6
+timeout 1800 cargo test --offline --test seed_demo_$N 2>&1 | grep -E "^test result|panicked|error\[|error:|signal" | head -6
 echo "patched rc=${PIPESTATUS[0]}"
 cd /
 git -C /repo worktree remove --force $W
